@@ -214,3 +214,116 @@ def replay_part(run, pid):
     res.nontrivial = res.evaluations
     res.bound = {'scripts': [s['script'] for s in res.samples]}
     run.add_part('real_gdb_replay', res)
+
+
+# ---------------------------------------------------------------------------
+# C10: halting.  The model assumes that a breakpoint whose stop() returns True halts the
+# program and that the plugin's gdb.execute('continue' / 'quit') do what they say.  Here a
+# schedule of GDB commands (-ex ...) is played against the stub in the real GDB and against
+# the model; the plugin's output (message lines, Stopped-at notices, command output) must agree.
+
+def run_fake_schedule(events, commands, stop):
+    import gdb
+    from . import gdbenv
+    from core.output import stream
+    env = gdbenv.make_plugin(stop=stop)
+    inf = gdbenv.Inferior()
+
+    class Both(stream.Base):
+        def __init__(self):
+            self.lines = []
+
+        def override_write(self, s):
+            self.lines += s.split('\n')
+    both = Both()
+    env['output'].out = both
+    env['output'].err = both
+    cmds = list(commands)
+    i = 0
+    quit_ = False
+    running = True
+    while not quit_:
+        if running:
+            if i >= len(events):
+                break                      # the program ran to its end
+            loc = inf.present(events[i])
+            i += 1
+            if env['bps'][loc].stop():
+                running = False
+            continue
+        if not cmds:
+            break                          # batch mode: GDB exits, the program is killed
+        c = cmds.pop(0)
+        if c == 'c':
+            running = True
+            continue
+        x0 = len(gdb._state.executed)
+        word = c.split(' ', 1)
+        env['commands'][word[0]].invoke(word[1] if len(word) > 1 else '', True)
+        did = gdb._state.executed[x0:]
+        if 'quit' in did:
+            quit_ = True
+        elif 'continue' in did:
+            running = True
+    return [mask(l) for l in both.lines if keep(l) or l.startswith(('Breakpoint matcher', 'Breaking on', 'Output filter', 'Only showing'))]
+
+
+def run_real_schedule(events, commands, stop):
+    exe = build_stub()
+    with tempfile.TemporaryDirectory(prefix='verif-gdbreplay-') as d:
+        script = os.path.join(d, 'script.txt')
+        with open(script, 'w') as f:
+            f.write(script_of(events))
+        env = dict(os.environ, PYTHONDONTWRITEBYTECODE='1')
+        env.pop('PYTHONHASHSEED', None)
+        argv = ['/venv/bin/python', os.path.join(sut.REPO, 'main.py'), '-C'] + (['-b', stop] if stop else []) + \
+               ['-g', '--batch', '-nx', '-ex', 'r']
+        for c in commands:
+            argv += ['-ex', c]
+        argv += ['--args', exe, script]
+        p = subprocess.run(argv, capture_output=True, text=True, env=env, cwd=d, timeout=600)
+        lines = [mask(l) for l in p.stderr.split('\n')
+                 if keep(l) or l.startswith(('Breakpoint matcher', 'Breaking on', 'Output filter', 'Only showing'))]
+        return lines, p
+
+
+def c10_schedules():
+    from . import gdbenv
+    from .props import c10
+    pre = c10.prelude('1') + c10.prelude('2')
+    kinds = [('1', 'commit'), ('1', 'motion'), ('2', 'enter'), ('1', 'name'), ('2', 'commit'), ('1', 'enter'), ('2', 'motion'), ('1', 'commit')]
+    msgs = pre + [c10.message_for(c, k) for c, k in kinds]
+    evs = [gdbenv.closure_from_print(dict(m, t_us=0), side='client', conn=int(m['conn'])) for m in msgs]
+    yield 'bp wl_surface, continue by hand', evs, ['c'] * 12, 'wl_surface'
+    yield 'resume through wl commands', evs, ['wl resume', 'wlresume', 'wl breakpoint', 'c', 'wl r', 'c', 'c', 'c', 'c', 'c', 'c'], 'wl_surface'
+    yield 'selection and breakpoint changes while halted', evs, ['wl connection B', 'c', 'wl breakpoint ! .motion', 'wl connection all', 'c', 'c',
+                                                                   'wl breakpoint !', 'c', 'c', 'c'], 'wl_surface'
+    yield 'quit', evs, ['c', 'wl quit', 'c', 'c'], 'wl_surface'
+    yield 'no breakpoint', evs, ['c'], None
+
+
+def replay_c10(run):
+    if run.violations:
+        run.skipped.append('real-GDB replay skipped: the model run already found violations')
+        return
+    if shutil.which('gdb') is None or shutil.which('gcc') is None:
+        run.skipped.append('real-GDB replay skipped: gdb or gcc not installed')
+        return
+    res = explore.Result()
+    try:
+        for label, evs, cmds, stop in c10_schedules():
+            fake = run_fake_schedule(evs, cmds, stop)
+            real, proc = run_real_schedule(evs, cmds, stop)
+            if fake != real:
+                k = next((i for i, (a, b) in enumerate(zip(fake, real)) if a != b), min(len(fake), len(real)))
+                raise HarnessError('GDB model disagrees with the real GDB on schedule %r at output line %d:\n  model: %r\n  gdb  : %r\n'
+                                   '(model %d lines, gdb %d lines)' % (label, k, fake[k:k + 2], real[k:k + 2], len(fake), len(real)))
+            res.evaluations += 1
+            res.validated += len(evs)
+            res.transitions += len(real)
+            res.samples.append({'schedule': label, 'commands': cmds, 'output_lines_compared': len(real)})
+    finally:
+        cleanup()
+    res.states = res.evaluations
+    res.nontrivial = res.evaluations
+    run.add_part('real_gdb_halting', res)
